@@ -93,7 +93,7 @@ package putsvc
 //@   property C25
 //@   callee (*put.distributedTarget).applyECRule
 //@   pureeffect
-//@   requires [parts_encoded_for_this_or_an_identical_rule] exists k int :: ecRules[k] == ecRules[a2] && a3 == t.encodedECParts[k]
+//@   requires [parts_encoded_for_this_or_an_identical_rule] a3 == t.encodedECParts[a2] || (exists k int :: ecRules[k] == ecRules[a2] && a3 == t.encodedECParts[k])
 //@   requires [node_list_selected_for_this_rule] a5 == objNodeLists[len(repRules) + a2]
 
 // Every REP rule is applied to its own node list; under the full policy the required and the
@@ -163,3 +163,13 @@ package putsvc
 //@   property C21
 //@   callee put.getPayload, put.putPayload, (*object.Object).*, (object.Object).*
 //@   pureeffect
+
+// Under MaxReplicas a failed EC rule is tolerated only if the rules after ITS position can
+// still supply the replicas that are left. The handler (closure handleECRule = saveObject$5)
+// computes that from the position it is given, so the position must be that of the rule it
+// applies - also for a repeated rule, which is applied from inside the iteration of its
+// first occurrence.
+//@ callrule c25_failed_rule_is_judged_from_its_own_position in (*distributedTarget).saveObject
+//@   property C25
+//@   callee (*put.distributedTarget).saveObject$5
+//@   requires [position_of_the_rule_applied] a0 == i && a1 == ruleIdx
